@@ -189,3 +189,101 @@ def c14_histories(tier, seed):
                       f"with the known finding (reopen truncates) modelled; histories that exercised the known finding: {known_seen}"}
     if bad: res["replay"] = {"reproduced": True, "path": _save("C14", "writer-histories", bad[0]), "witness": bad[0]}
     return res
+
+
+# ---------------------------------------------------------------------------------------------- C08: numpy positional formatting
+@bounded("C08", "number-formatting-grid")
+def c08_grid(tier, seed):
+    """bounded stand-in for the numeric clause: DefaultFormatter.number(x) is a plain signed decimal within half a unit of the last
+    configured decimal place of x (exact rational arithmetic), over a grid of doubles x all precisions 0..12"""
+    import numpy as np
+    from gscrib.formatters import DefaultFormatter
+    rnd = random.Random(seed or 1)
+    vals = [0.0, -0.0, 5e-324, -5e-324, 2.2250738585072014e-308, 1e-7, 1.5e-5, 0.1, 0.5, 1.0, -1.0, 123.456, 1e15, -1e15, 999999999999999.9,
+            0.30000000000000004, 2.675, 1.005, 0.125, 0.375, 1e-13, 4.35, 8.345, 1234567.891]
+    for p in range(0, 13):          # values at rounding ties of every precision
+        for k in (1, 3, 5, 7, 25, 12345):
+            vals += [(2 * k + 1) / (2 * 10 ** p), -(2 * k + 1) / (2 * 10 ** p)]
+    n_rand = 1500 if tier == "quick" else 200000
+    for _ in range(n_rand):
+        e = rnd.uniform(-16, 15); vals.append(rnd.choice([-1, 1]) * rnd.random() * 10 ** e)
+    extra = [np.float32(0.1), np.float64(2.5), np.int64(7), 3, -12, True, np.float16(0.333)]
+    dec = re.compile(r"^-?\d+(\.\d+)?$")
+    f = DefaultFormatter()
+    bad, worst, cases = [], Fraction(0), 0
+    for p in range(0, 13):
+        f.set_decimal_places(p)
+        half = Fraction(1, 2 * 10 ** p)
+        for v in vals + extra:
+            cases += 1
+            s = f.number(v)
+            exact = Fraction(float(v)) if not isinstance(v, (int, bool)) else Fraction(int(v))
+            if not dec.match(s): bad.append({"value": repr(v), "precision": p, "text": s, "why": "not a plain signed decimal"}); break
+            if "." in s and len(s.split(".")[1]) > p: bad.append({"value": repr(v), "precision": p, "text": s, "why": "more decimals than configured"}); break
+            err = abs(Fraction(s) - exact)
+            # numpy rounds the SHORTEST REPR of the double, not the double itself: allow the distance between the two (< 1 ulp) on top of half a unit
+            slack = abs(Fraction(repr(float(v))) - exact) if not isinstance(v, (int, bool)) else 0
+            worst = max(worst, err - half)
+            if err > half + slack: bad.append({"value": repr(v), "precision": p, "text": s, "error": str(err), "half_unit": str(half)}); break
+        if bad: break
+    # non-finite values are rejected
+    for v in (float("nan"), float("inf"), float("-inf"), np.float64("nan")):
+        try:
+            f.number(v); bad.append({"value": repr(v), "why": "non-finite value was formatted"})
+        except ValueError: pass
+    res = {"name": "number-formatting-grid", "cases": cases, "bounded": True, "status": "violated" if bad else "held",
+           "summary": f"{cases} (value, precision) pairs: subnormals, ±0, ties at every precision 0..12, magnitudes to 1e15, numpy scalars, {n_rand} seeded random doubles; "
+                      f"plain decimal, <= p decimals, |text - value| <= half unit (+ distance double↔shortest repr); worst excess over half a unit: {float(worst):.3e}"}
+    if bad: res["replay"] = {"reproduced": True, "path": _save("C08", "number-grid", bad[0]), "witness": bad[0]}
+    return res
+
+
+# ---------------------------------------------------------------------------------------------- C09 / C08: text <-> block bridge
+HOSTILE = ["hello", "", "  ", "a\nG1 X100", "a\r\nM3 S9000", "x\rG0 Z-5", "tab\tsep", "semi ; colon", "close ) paren ( open", "] } > \" ' */ /*",
+           "unicode   sep   par \x85 nel", "\x0b\x0c vt ff", "G1 X1 Y2 ; G28", "ünïcödé ☃", "%", "N10 G1 X5*71", ")\n(G1 X9)", "*/ G1 X7 /*", "{}", "{0}", "{text}"]
+
+
+@bounded("C09", "comment-confinement-end-to-end")
+def c09_bridge(tier, seed):
+    """bounded stand-in for the text<->block bridge and for the assumed splitlines/replace contracts: real builder, hostile comment
+    text through every entry point and every comment style; the output is cut into lines and lexed by the independent lexer"""
+    import io
+    from gscrib import GCodeBuilder
+    from specs.lexer import lex_line, split_lines, strip_comment
+    rnd = random.Random(seed or 1)
+    texts = list(HOSTILE)
+    alphabet = "ab \n\r;()[]{}<>\"'/*\\%G1X \t "
+    for _ in range(60 if tier == "quick" else 5000):
+        texts.append("".join(rnd.choice(alphabet) for _ in range(rnd.randint(0, 12))))
+    styles = [";", "(", "[", "{", "<", '"', "'", "/*", "#", "//"]
+    def program(g, t):
+        g.comment(t); g.comment(t, 1, "x"); g.annotate("key", t); g.move(x=1, y=2.5, comment=t); g.rapid(z=3, comment=t)
+        g.set_axis(x=0, comment=t); g.move_absolute(x=4, comment=t); g.probe("towards", z=-1, comment=t); g.auto_home(comment=t)
+        g.emergency_halt(t)
+    bad, cases = [], 0
+    for style in styles:
+        for eol in ("\\n", "\\r\\n"):
+            real_eol = eol.encode().decode("unicode-escape")
+            def run(t):
+                o = io.BytesIO(); g = GCodeBuilder(output=o, comment_symbols=style, line_endings=eol); program(g, t); g.flush()
+                return split_lines(o.getvalue(), real_eol)
+            ref = [lex_line(l, style) for l in run("x")]
+            for t in texts:
+                cases += 1
+                try: lines = run(t)
+                except Exception as e:
+                    bad.append({"style": style, "text": t, "why": f"raised {type(e).__name__}: {e}"}); break
+                got = [lex_line(l, style) for l in lines]
+                if len(lines) != len(ref): bad.append({"style": style, "text": t, "why": f"{len(lines)} lines instead of {len(ref)}", "lines": lines}); break
+                if any(("\n" in l or "\r" in l) for l in lines): bad.append({"style": style, "text": t, "why": "line break inside a line body", "lines": lines}); break
+                if [(a["cmds"], a["words"], a["junk"]) for a in got] != [(a["cmds"], a["words"], a["junk"]) for a in ref]:
+                    bad.append({"style": style, "text": t, "why": "executable words differ from the run with an innocuous comment", "lines": lines}); break
+            if bad: break
+        if bad: break
+    res = {"name": "comment-confinement-end-to-end", "cases": cases, "bounded": True, "status": "violated" if bad else "held",
+           "summary": f"{cases} (style, line ending, text) combinations x 11 entry points: same number of lines and same executable words (independent lexer) as with the comment 'x'"}
+    if bad: res["replay"] = {"reproduced": True, "path": _save("C09", "comment-bridge", bad[0]), "witness": bad[0]}
+    return res
+
+
+BOUNDED.setdefault("C08", []).append(("comment-confinement-end-to-end", c09_bridge))
